@@ -63,6 +63,9 @@ pub struct EntrySpec {
 
 #[derive(Clone, Debug, Serialize, Deserialize)]
 pub struct Case {
+    /// text layout: all checksum lines of all entries first, then all size lines
+    #[serde(default)]
+    pub sizes_grouped_last: bool,
     /// components below the scratch root; the last one is the file
     pub comps: Vec<B>,
     pub content: B,
@@ -172,7 +175,7 @@ fn case_strategy(tier: Tier) -> BoxedStrategy<Case> {
         .prop_map(|(dirs, f, content, entries, via_text)| {
             let mut comps: Vec<B> = dirs.into_iter().map(|d| B(DIRS[d].to_vec())).collect();
             comps.push(B(FILES[f].to_vec()));
-            Case { comps, content: B(content), entries, via_text }
+            Case { sizes_grouped_last: false, comps, content: B(content), entries, via_text }
         })
         .boxed();
     // one case in four uses a generated file name (arbitrary non-white-space bytes, patch shapes)
@@ -187,6 +190,7 @@ fn case_strategy(tier: Tier) -> BoxedStrategy<Case> {
                 let last = c.comps.len() - 1;
                 c.comps[last] = B(n);
             }
+            c.sizes_grouped_last = c.content.0.len() % 4 == 1;
             c
         })
         .boxed()
@@ -333,7 +337,7 @@ pub fn check(c: &Case, obs: &mut Obs) -> Result<(), String> {
                     text.extend_from_slice(format!(") = {} bytes\n", s).as_bytes());
                 }
             };
-            if r.size_first {
+            if r.size_first && !c.sizes_grouped_last {
                 size_line(&mut text);
             }
             for (a, h) in &r.checksums {
@@ -341,8 +345,17 @@ pub fn check(c: &Case, obs: &mut Obs) -> Result<(), String> {
                 text.extend_from_slice(&r.name);
                 text.extend_from_slice(format!(") = {}\n", h).as_bytes());
             }
-            if !r.size_first {
+            if !r.size_first && !c.sizes_grouped_last {
                 size_line(&mut text);
+            }
+        }
+        if c.sizes_grouped_last {
+            for r in &recs {
+                if let Some(s) = r.size {
+                    text.extend_from_slice(b"Size (");
+                    text.extend_from_slice(&r.name);
+                    text.extend_from_slice(format!(") = {} bytes\n", s).as_bytes());
+                }
             }
         }
         Distinfo::from_bytes(&text)
